@@ -48,7 +48,7 @@ func TestMain(m *testing.M) {
 		"fallback-key-reached", "unknown-type-url-key-accepted", "stub-key-in-keyset", "weak-key-reached", "weak-refused-at-reader", "weak-refused-at-factory",
 		"duplicate-id-image-by-block-duplication", "round-trip-on-read-back-handle", "derived-keyset-exercised", "cut-image-accepted", "torn-write-prefix-read-back",
 		"splice-accepted", "changed-nonprimary-key-exercised-alone", "keyset-info-flip-accepted", "ciphertext-flip-rejected", "public-only-primitives-built", "pooled-key-in-keyset",
-		"kms-envelope-key-in-keyset", "kms-envelope-wrapped-dek-on-power-of-two-boundary", "kms-envelope-unsupported-dek"}
+		"kms-envelope-key-in-keyset", "acceptor-poked-with-short-inputs", "short-input-matching-a-prefix-up-to-zero-bytes", "kms-envelope-wrapped-dek-on-power-of-two-boundary", "kms-envelope-unsupported-dek"}
 	for _, r := range rejectRules {
 		if r != "inner-syntax" { // needs a valid ciphertext around garbage: no storage fault gets there
 			probes = append(probes, "rejected:"+r)
@@ -254,6 +254,16 @@ func (w *world) freshID(used map[uint32]bool) uint32 {
 	for {
 		id := binary.BigEndian.Uint32(w.g.Bytes(13, w.idCtr*4, 4))
 		w.idCtr++
+		// every uint32 is a legal key ID; those with zero bytes make output prefixes that short or zero-padded inputs
+		// run into
+		switch id % 16 {
+		case 0:
+			id &= 0xff000000
+		case 1:
+			id &= 0xffff0000
+		case 2:
+			id &= 0x000000ff
+		}
 		if !used[id] {
 			used[id] = true
 			return id
